@@ -101,6 +101,33 @@ def run(ctx, build, verdict, ev):
         groups.append(("list float * list float * list float * oracle",
                        f"fun c => let '(ps, xs, es, t) := c in match {mk} with Some s => forallb (fun xe => feq (@shape_membership float (NumF false t) s (fst xe)) (snd xe)) (combine xs es) && Nat.eqb (List.length xs) (List.length es) | None => false end", a_lits))
         index += a_idx
+    # ---- last-bit probe: array evaluation vs element-by-element evaluation on many random x per class
+    # (a kernel whose float path (libm pow on numpy.float64) and array path (exact square) round differently shows up
+    # in roughly 1 of 1000 inputs, far below what the structured points above would hit)
+    probe_n = ctx.n(1500, 20000)
+    for name in termlib.SHAPES:
+        if name == "Constant":
+            continue
+        cls = getattr(fl, name)
+        for _ in range(2):
+            p = termlib.gen_params(name, ctx.rng)
+            names, args = arglist(cls, p)
+            t = cls("t", *args)
+            fin = [v for v in termlib.breakpoints(name, p) if math.isfinite(v)] or [0.0]
+            lo, hi = min(fin), max(fin)
+            span = max(hi - lo, 1.0)
+            xs_p = np.array([ctx.rng.uniform(lo - 0.5 * span, hi + 0.5 * span) for _ in range(probe_n // 2)])
+            with np.errstate(all="ignore"):
+                arr = np.asarray(t.membership(xs_p), dtype=float)
+                for x, a in zip(xs_p, arr):
+                    r = float(t.membership(float(x)))
+                    evaluations += 1
+                    if not vlib.same_float(r, float(a)):
+                        verdict.add_violation(f"{name}:array", f"{name}{args}.membership: array evaluation {float(a)!r} differs from scalar evaluation {r!r} at x={float(x)!r}",
+                                              {"term": name, "params": p, "x": float(x), "scalar": r, "array1d": float(a)})
+                        nviol += 1
+                        break
+    dist["array_vs_scalar_probe_per_class"] = probe_n
     # Discrete (numpy.interp) — hand model
     import discrete_cases
 
